@@ -145,6 +145,12 @@ func (p Params) Body() func() {
 					hx.Fail("foreign-error", "returned %v, which no call returned and is not the caller's context error", err)
 				}
 			} else {
+				// nil means success: then every index was called (exactly once)
+				for i, c := range calls {
+					if c != 1 && len(p.Fail) == 0 {
+						hx.Fail("nil-return-with-calls-missing", "%s returned nil although f(%d) was called %d times (caller context %s)", p.Variant, i, c, p.Ctx)
+					}
+				}
 				// nil is only possible if no failing call ran
 				for i := range failSet {
 					if calls[i] > 0 {
